@@ -287,7 +287,13 @@ func runFilters(t *testing.T, rc *core.RunCtx) {
 	if race {
 		nPeers = 3
 	}
-	w.addPeer("honest", plan.main, &Behaviour{BaseLatency: time.Duration(5+tp.Intn(100)) * time.Millisecond, Jitter: 20 * time.Millisecond})
+	hb := &Behaviour{BaseLatency: time.Duration(5+tp.Intn(100)) * time.Millisecond, Jitter: 20 * time.Millisecond}
+	if rc.Prop == "C04" && !gate && tp.Chance(1, 2) {
+		// the honest node is the slow one: it completes its handshake after
+		// the others have been served
+		hb.BaseLatency = time.Duration(300+tp.Intn(3000)) * time.Millisecond
+	}
+	w.addPeer("honest", plan.main, hb)
 	nLiars := 0
 	for i := 1; i < nPeers; i++ {
 		beh := &Behaviour{BaseLatency: time.Duration(5+tp.Intn(300)) * time.Millisecond, Jitter: 40 * time.Millisecond}
@@ -305,7 +311,12 @@ func runFilters(t *testing.T, rc *core.RunCtx) {
 				beh.CFLies = map[int32]int{int32(n + 1): 1 + tp.Intn(3)}
 			}
 			nLiars++
-		case k < 50:
+		case k < 46:
+			// answers every filter-header request correctly but appends
+			// hashes beyond the requested stop block
+			role = "cf-surplus"
+			beh.CFSurplus = 1 + tp.Intn(3)
+		case k < 52:
 			role = "no-cf"
 			beh.NoCF = true
 		case k < 60:
@@ -398,7 +409,7 @@ func runFilters(t *testing.T, rc *core.RunCtx) {
 	follow := func(newTip *chainmodel.Block, announce bool) {
 		for _, p := range w.peers {
 			switch p.role {
-			case "honest", "cf-liar", "no-cf", "flaky", "silent":
+			case "honest", "cf-liar", "no-cf", "flaky", "silent", "cf-surplus":
 				p.setView(newTip)
 				p.fhCache = nil
 				if announce && (p.idx == 0 || tp.Chance(1, 2)) {
@@ -523,7 +534,8 @@ func runFilters(t *testing.T, rc *core.RunCtx) {
 	// "whatever its other peers send ... as in C03"); a node telling a lie
 	// that cannot be refuted must be gone, or a 1:1 tie can never be broken.
 	for _, p := range w.peers {
-		if p.idx == 0 || p.role == "honest" || (p.role == "cf-liar" && provableOnly) {
+		// honest nodes stay, also those that serve a shorter (valid) chain
+		if p.idx == 0 || p.role == "honest" || p.role == "lagging" || (p.role == "cf-liar" && provableOnly) {
 			continue
 		}
 		p.setUp(false)
@@ -531,7 +543,8 @@ func runFilters(t *testing.T, rc *core.RunCtx) {
 	}
 	w.peers[0].setView(honestTip)
 	w.peers[0].setUp(true)
-	w.peers[0].announce(false, 1)
+	// (No re-announcement here: a real node announces a block once. The
+	// client has to get to the tip by its own means.)
 	const bound = 30 * time.Minute
 	atHonestTip := func() bool {
 		bs, err := w.cs.BestBlock()
@@ -546,6 +559,16 @@ func runFilters(t *testing.T, rc *core.RunCtx) {
 		return true
 	}
 	converged := w.runFor(bound/3, atHonestTip)
+	lossy := rc.Res.Faults["net.drop"]+rc.Res.Faults["net.stall"]+rc.Res.Faults["net.silent"]+rc.Res.Faults["net.close"]+rc.Res.Faults["net.down"] > 0
+	if !converged && !lossy && rc.Prop == "C04" {
+		// Nothing was ever lost, delayed or cut in this run: there is no
+		// excuse for waiting for the next block.
+		wt.check()
+		bs, _ := w.cs.BestBlock()
+		rc.Failf("no-convergence-after-faults-stopped", map[string]string{"cause": nonConvergenceCause(w, wt), "lossless": "true"},
+			"no message was ever dropped, stalled or cut in this run, yet %v after the calm phase began (honest node %s connected, chain quiescent at %d) the client reports best block %d; block tip %d, filter tip %d",
+			bound/3, w.peers[0].addr.IP, honestTip.Height, bs.Height, wt.prev.tip(), len(wt.prev.filt)-1)
+	}
 	if !converged {
 		// "Eventually" on a chain that keeps growing: a request whose answer
 		// was lost (its block hash is remembered as already requested) is
@@ -650,6 +673,23 @@ func nonConvergenceCause(w *World, wt *watcher) string {
 				return "false-filter-header-committed-while-no-honest-node-was-asked"
 			}
 			return "false-filter-header-committed-although-honest-node-answered"
+		}
+	}
+	// Stuck on the chain of a connected node that lags behind, with the honest
+	// node connected as well?
+	ct := wt.prev.tipBlock()
+	for _, p := range w.peers {
+		if p.role == "lagging" && p.connected() && p.view == ct && ct.Height < w.peers[0].view.Height &&
+			ct.IsAncestorOf(w.peers[0].view) && w.peers[0].connected() {
+			// Would the client have counted itself current when the better
+			// node's handshake completed? (It asks a new, higher peer for
+			// headers only then.) Current = it had all of the lagging sync
+			// peer's headers and its tip was less than a day old.
+			hs := w.peers[0]
+			if hs.clientTipAtHandshake < ct.Height || hs.handshakeAt.Sub(ct.Hdr.Timestamp) > 24*time.Hour-75*time.Minute {
+				return "lagging-sync-peer-and-client-not-current-when-better-peer-connected"
+			}
+			return "on-lagging-chain-although-current-when-better-peer-connected"
 		}
 	}
 	return "other"
